@@ -224,6 +224,11 @@ static bool authenticode_verify(PKCS7* p7, PKCS7_SIGNER_INFO* si, X509* signCert
     /* Create `digest` type BIO to calculate content digest for verification */
     BIO* p7bio = PKCS7_dataInit(p7, contentBio);
 
+    if (!p7bio) {
+        BIO_free(contentBio);
+        return false;
+    }
+
     char buf[4096];
     /* We now have to 'read' from p7bio to calculate content digest */
     while (BIO_read(p7bio, buf, sizeof(buf)) > 0)
